@@ -32,6 +32,7 @@ RULE = ('block models (6 identifier forms; identifier/parameter/Returns annotati
         'and text-level re-layouts of the diagnostic-free ones; non-trivial = a generated model with a continued '
         'annotation field or a multi-paragraph description AND >= 2 annotations carrying options; distinct = hash '
         'of the case')
+RULE = RULE + ' ' + 'Description words include FF, VT, FS/GS/RS, NEL and U+2028/2029, which are not line ends; the thorough tier adds a coverage-guided stage (atheris over the same strategy).'
 ASSUMPTIONS = [
     'generator preconditions are the statement\'s: tokens inside one annotation separated by single spaces, '
     'descriptions do not begin with a parenthesis or colon; plus model unambiguity: a description line does not '
